@@ -22,7 +22,10 @@ EXPLANATION = (
     "find_lat_long_along_traj, with latS/longS/betaTrSubN in degrees and the returned angles in radians; "
     "R02.5 the masked stores that fill the line-of-sight length cover every event (else the zero default "
     "can escape); R02.6 every store into the line-of-sight length is guarded by the range mask of the "
-    "stored root. NOT decided: exactness of the inverse CDF, ground spot at exactly that distance, beta "
+    "stored root; R02.7 the closed forms of the spherical geometry modulo algebra: law of cosines for theta_S and "
+    "theta_N,V, spherical law of cosines for theta_Tr,N, beta = 90 deg - angle to the vertical, and the ground "
+    "spot as the standard ENU->ECEF image of the spot direction (arcsin / arctan2 forms valid on the whole "
+    "sphere). NOT decided: exactness of the inverse CDF, ground spot at exactly that distance, beta "
     "from explicit vectors, positions at s>0 (numerical geometry)."
 )
 
@@ -146,6 +149,56 @@ def run(ck, ctx):
         ck.floor("R02.4", uf.trig_sites, 85, "trigonometric / angle-conversion call sites")
         ck.info["trig_sites"] = uf.trig_sites
     ck.guard(units, "R02.4")
+
+    # ---------------------------------------------------------------- R02.7 closed forms of the spherical geometry
+    def closed_forms():
+        from ..facets.poly import PolyFacet
+        names = ["core_alt", "earth_radius", "earth_rad_2", "losPathLen", "thetaS", "phiS", "detLat", "detLong",
+                 "thetaTrSubV", "phiTrSubV", "costhetaNSubV", "costhetaTrSubN", "thetaTrSubN"]
+        nodes = {k: D.A(k) for k in names}
+
+        def facet(*opaque):
+            P = PolyFacet(I, opaque_ids={nodes[k].id for k in opaque}, gather_transparent=True)
+            return P, {k: P.of(nodes[k]) for k in opaque}
+        # law of cosines in the Earth-centre / detector / spot triangle
+        P, e = facet("core_alt", "earth_radius", "earth_rad_2", "losPathLen")
+        env = {"c": e["core_alt"], "R": e["earth_radius"], "R2": e["earth_rad_2"], "L": e["losPathLen"]}
+        ck.ob("R02.7", "thetaS == arccos((core^2 + R^2 - L^2) / (2 R core))  (law of cosines, angle at the Earth's centre)",
+              P.equal(P.of(D.A("thetaS")), P.ref("arccos((c**2 + R2 - L**2)/(2*R*c))", env)), D.A("thetaS"), func,
+              P.show(P.of(D.A("thetaS")))[:160])
+        ck.ob("R02.7", "cos(theta_N,V) == (core^2 - R^2 - L^2) / (2 R L)  (law of cosines, angle at the spot)",
+              P.equal(P.of(D.A("costhetaNSubV")), P.ref("(c**2 - R2 - L**2)/(2*R*L)", env)), D.A("costhetaNSubV"), func,
+              P.show(P.of(D.A("costhetaNSubV")))[:160])
+        # spherical law of cosines for the trajectory / local vertical angle
+        P, e = facet("thetaTrSubV", "phiTrSubV", "costhetaNSubV")
+        env = {"t": e["thetaTrSubV"], "p": e["phiTrSubV"], "cn": e["costhetaNSubV"]}
+        ck.ob("R02.7", "cos(theta_Tr,N) == cos(thTrV) cos(thNV) - sin(thTrV) sin(thNV) cos(phiTrV)",
+              P.equal(P.of(D.A("costhetaTrSubN")), P.ref("cos(t)*cn - sin(t)*sin(arccos(cn))*cos(p)", env)),
+              D.A("costhetaTrSubN"), func, P.show(P.of(D.A("costhetaTrSubN")))[:200])
+        P, e = facet("costhetaTrSubN")
+        ck.ob("R02.7", "emergence angle == degrees(pi/2 - arccos(cos(theta_Tr,N)))  (90 deg minus the angle to the local "
+              "vertical)", P.equal(P.of(D.A("betaTrSubN")), P.ref("degrees(pi/2 - arccos(x))", {"x": e["costhetaTrSubN"]})),
+              D.A("betaTrSubN"), func, P.show(P.of(D.A("betaTrSubN")))[:160])
+        # ground spot: ENU -> ECEF image of the unit vector (sin thS cos phiS, sin thS sin phiS, cos thS)
+        P, e = facet("thetaS", "phiS", "detLat", "detLong")
+        env = {"th": e["thetaS"], "ph": e["phiS"], "la": e["detLat"], "lo": e["detLong"]}
+        env["E"] = P.ref("sin(th)*cos(ph)", env)
+        env["N"] = P.ref("sin(th)*sin(ph)", env)
+        env["U"] = P.ref("cos(th)", env)
+        x = P.ref("-sin(lo)*E - sin(la)*cos(lo)*N + cos(la)*cos(lo)*U", env)
+        y = P.ref("cos(lo)*E - sin(la)*sin(lo)*N + cos(la)*sin(lo)*U", env)
+        z = P.ref("cos(la)*N + sin(la)*U", env)
+        env.update(x=x, y=y, z=z)
+        ck.ob("R02.7", "spot latitude == degrees(arcsin(z)) with z the ECEF component of the spot direction "
+              "(standard ENU -> ECEF rotation at the detector)", P.equal(P.of(D.A("latS")), P.ref("degrees(arcsin(z))", env)),
+              D.A("latS"), func, P.show(P.of(D.A("latS")))[:200])
+        lon = D.A("longS")
+        inner = lon.args[0] if lon.op == "BinOp" and lon.attr == "Mod" else lon
+        ck.ob("R02.7", "spot longitude == degrees(arctan2(y, x)) % 360 with (x, y) the ECEF components of the spot "
+              "direction (valid on the whole sphere, also beyond +-90 deg of the detector meridian)",
+              lon.op == "BinOp" and lon.attr == "Mod" and P.equal(P.of(inner), P.ref("degrees(arctan2(y, x))", env)),
+              lon, func, P.show(P.of(inner))[:200])
+    ck.guard(closed_forms, "R02.7")
 
     # ---------------------------------------------------------------- R02.5 / R02.6 line-of-sight stores
     def los():
